@@ -18,6 +18,7 @@ RULE = (
     "(triangle inequality) from the complete distance table per sigma; Wasserstein stability bound. "
     "state = (F,G,sigma); transition = one persim.heat call; non-trivial = F and G are the same multiset "
     "in a different row order, or differ by < 1e-8 (cancellation regime), or both non-empty and different."
+    " (n,3) arrays with an annotation column."
 )
 ASSUMPTIONS = [
     "values are compared on squares with a round-off allowance of 64 eps x the sum of |kernel terms| (the square root amplifies round-off near 0)",
